@@ -361,8 +361,11 @@ OnPromote(S, m, e) ==
   LET m1 == Check(m, "PromotionRefusedWhileHeld", ~e.create /\ e.exc = "" /\ e.before # "", ~e.ok /\ e.after = e.before)
       m2 == Check(m1, "PromotionGrantedOnlyWhenFree", ~e.create /\ e.ok, e.before = "" /\ e.after = e.host)
       isCancel == e.ok /\ e.pid \in DOMAIN m.kind /\ m.kind[e.pid] = "cancel-jobs"
+      \* the cancel is in effect from the moment cancel-jobs holds the submitter role on a submission that is not complete:
+      \* whatever it finds (active batches or none), nothing is handed to the HPC any more
       m3 == IF isCancel THEN [m2 EXCEPT !.activeAtCancel = {b \in DOMAIN m.bstate : m.bstate[b] \in {"pending", "running"}},
-                                        !.cleanAtCancel = FaultFree(m)]
+                                        !.cleanAtCancel = FaultFree(m),
+                                        !.cancelSeen = @ \/ (m.hasSt /\ ~m.st.complete)]
             ELSE m2
       m4 == IF e.ok /\ m.hasSt THEN [m3 EXCEPT !.atPromo = (e.pid :> JsPart(m.st)) @@ @] ELSE m3
   IN IF e.ok /\ e.pid \in DOMAIN m4.rounds THEN [m4 EXCEPT !.rounds[e.pid].promoted = TRUE] ELSE m4
@@ -447,7 +450,11 @@ OnHook(S, m, e) ==
       rows == ToSet(e.rows)
       bj == IF e.b \in DOMAIN m.bjobs THEN ToSet(m.bjobs[e.b]) ELSE JobsOf(S)     \* local mode: the one "batch" is everything
       a1 == Check(m,  "HookConfigured", TRUE, S.hooks[w])
-      a2 == Check(a1, "HookEnv", TRUE, e.envok /\ (w \in {"nsetup", "nteardown"} => e.grp \in DOMAIN S.groups))
+      \* the documented environment: the runtime output directory, and on a node the submission group *of that node's batch*
+      a2 == Check(a1, "HookEnv", TRUE,
+                  e.envok /\ (w \in {"nsetup", "nteardown"} =>
+                                 /\ e.grp \in DOMAIN S.groups
+                                 /\ (S.mode = "hpc" /\ e.b \in DOMAIN m.bjobs => \A j \in ToSet(m.bjobs[e.b]) \cap JobsOf(S) : S.grp[j] = e.grp)))
       a3 == Check(a2, "SetupOnceBeforeFirstHandOver", w = "setup", HookCount(m, "setup", e.b) = 0 /\ ~m.anyHandOver /\ m.epoch = 0)
       a4 == Check(a3, "TeardownOncePerCompletion", w = "teardown",
                   HookCount(m, "teardown", e.b) = 0 /\ ~(m.hasSt /\ m.st.complete) /\ m.summaries >= 1)
